@@ -203,39 +203,46 @@ impl Database {
             return Ok(region);
         }
 
-        let layout = self.layout();
-        if layout.find_smallest_adequate_hole(PAGE_SIZE).is_none() {
-            let end = layout.len();
-            drop(layout);
-            self.set_min_len(end + PAGE_SIZE)?;
-        } else {
-            drop(layout);
-        }
+        // The file is grown with the layout lock released (growing needs the mapping's write
+        // lock), so another creator can take the tail in between: re-check under the write
+        // lock and grow again instead of placing a region beyond the end of the file.
+        let (mut layout, mut regions, start) = loop {
+            let layout = self.layout();
+            if layout.find_smallest_adequate_hole(PAGE_SIZE).is_none() {
+                let end = layout.len();
+                drop(layout);
+                self.set_min_len(end + PAGE_SIZE)?;
+            } else {
+                drop(layout);
+            }
 
-        #[cfg(feature = "verif")]
-        verif::point("create_region:before_layout_mut");
+            #[cfg(feature = "verif")]
+            verif::point("create_region:before_layout_mut");
 
-        debug!("{}: create_region_if_needed '{}'", self, id);
-        trace!(
-            "{}: create_region_if_needed '{}' acquiring layout_mut",
-            self, id
-        );
-        let mut layout = self.layout_mut();
-        trace!(
-            "{}: create_region_if_needed '{}' acquiring regions_mut",
-            self, id
-        );
-        let mut regions = self.regions_mut();
+            debug!("{}: create_region_if_needed '{}'", self, id);
+            trace!(
+                "{}: create_region_if_needed '{}' acquiring layout_mut",
+                self, id
+            );
+            let mut layout = self.layout_mut();
+            trace!(
+                "{}: create_region_if_needed '{}' acquiring regions_mut",
+                self, id
+            );
+            let regions = self.regions_mut();
 
-        if let Some(region) = regions.get_from_id(id).cloned() {
-            return Ok(region);
-        }
+            if let Some(region) = regions.get_from_id(id).cloned() {
+                return Ok(region);
+            }
 
-        let start = if let Some(start) = layout.find_smallest_adequate_hole(PAGE_SIZE) {
-            layout.remove_or_compress_hole(start, PAGE_SIZE)?;
-            start
-        } else {
-            layout.len()
+            if let Some(start) = layout.find_smallest_adequate_hole(PAGE_SIZE) {
+                layout.remove_or_compress_hole(start, PAGE_SIZE)?;
+                break (layout, regions, start);
+            }
+            let start = layout.len();
+            if start + PAGE_SIZE <= self.file_len() {
+                break (layout, regions, start);
+            }
         };
 
         let region = regions.create(self, id.to_owned(), start)?;
